@@ -234,7 +234,7 @@ theorem obsOf_eq_of_rawRel {cfg : Cfg} {po : Bytes → List Bytes} (hpo : TrailI
 
 def RouteOK (cfg : Cfg) (po : Bytes → List Bytes) (r : Route) : Prop :=
   r.pretty = prettyOf cfg r.raw ∧ r.path = cleanOf cfg r.raw ∧ r.params = po r.raw ∧
-  r.root = (cleanOf cfg r.raw == [47]) ∧ r.star = (cleanOf cfg r.raw == [47, 42])
+  r.root = (cleanOf cfg r.raw == [47]) ∧ r.star = (prettyOf cfg r.raw == [47, 42])
 
 def SlotsOK (cfg : Cfg) (po : Bytes → List Bytes) (l : List Slot) : Prop :=
   ∀ r, Slot.route r ∈ l → RouteOK cfg po r
